@@ -224,7 +224,21 @@ func runWorker(bin string, args []string, gomaxprocs string) (*output, string, e
 	var so, se bytes.Buffer
 	cmd.Stdout = &so
 	cmd.Stderr = &se
-	err := cmd.Run()
+	if err := cmd.Start(); err != nil {
+		return nil, "", err
+	}
+	// hard limit: a worker that overruns its internal deadline by a wide margin is killed
+	limit := 40 * time.Minute
+	for i, a := range args {
+		if a == "-deadline" && i+1 < len(args) {
+			if d, e := time.ParseDuration(args[i+1]); e == nil {
+				limit = d + 120*time.Second
+			}
+		}
+	}
+	timer := time.AfterFunc(limit, func() { cmd.Process.Kill() })
+	err := cmd.Wait()
+	timer.Stop()
 	var out *output
 	sc := bufio.NewScanner(&so)
 	sc.Buffer(make([]byte, 1<<20), 1<<28)
